@@ -393,6 +393,12 @@ class C12Monitor(Monitor):
                 continue
             big = b > rc * (1 + delta)
             small = b < rc * (1 - delta)
+            # boundaries below the minimum radius bound only classes that the documented removal empties every step (the
+            # binary growth law can be singular there: supersaturation > 1 gives an infinite 'growth rate'): not part of the claim
+            keep = b >= model.constraints.minRadius
+            R.observe('c12_boundaries_below_min_radius_excluded', int(np.sum(~keep)))
+            big = big & keep
+            small = small & keep
             if len(model.elements) == 1:
                 # boundaries at/below the stability index carry the composition of the first stable boundary by
                 # documented design (their classes are emptied every step): not part of the claim
